@@ -113,8 +113,6 @@ Qed.
 Definition valid_pop (pop : seq aindR) := [seq i <- pop | f_valid (ai_fit i)].
 Notation first_best := (first_max ai_le).
 
-Lemma List_filterE (A : Type) (p : A -> bool) l : List.filter p l = filter p l.
-Proof. by elim: l => //= x l ->. Qed.
 
 (* update: elite fields in terms of the first best evaluated offspring *)
 Lemma active_update_elite dim P st pop invs :
